@@ -536,6 +536,7 @@ service Svc { Req M(1: Req req), }
 		}
 		cs.Distinct(fmt.Sprintf("depth-%d", d))
 	})
+	runJSConvJ2T(c)
 }
 
 // firstDiff describes the first difference between two models.
